@@ -120,7 +120,7 @@ def convert(model: nn.Module,
         fuse_mps_modules(mod)
     # Dictionary of shared quantizers. Used only in 'autoimport' mode.
     sq_dict = {} if conversion_type != 'autoimport' else build_shared_mps_qtz_map(
-            mod, w_search_type, qinfo, disable_shared_quantizers)
+            mod, w_search_type, qinfo, disable_shared_quantizers, exclude_names, exclude_types)
     convert_layers(mod, conversion_type, qinfo, sq_dict, exclude_names, exclude_types)
     if conversion_type in ('autoimport', 'import'):
         add_input_quantizer(mod, qinfo)
@@ -186,7 +186,9 @@ def convert_layers(mod: fx.GraphModule,
 def build_shared_mps_qtz_map(mod: fx.GraphModule,
                              w_search_type: MPSType,
                              qinfo: Dict,
-                             disable_shared_quantizers: bool) -> Dict[
+                             disable_shared_quantizers: bool,
+                             exclude_names: Iterable[str] = (),
+                             exclude_types: Iterable[Type[nn.Module]] = ()) -> Dict[
                                      fx.Node,
                                      Tuple[MPSPerLayerQtz, Union[MPSPerLayerQtz, MPSPerChannelQtz]]
                                      ]:
@@ -242,8 +244,12 @@ def build_shared_mps_qtz_map(mod: fx.GraphModule,
         curr_qinfo = copy.deepcopy(qinfo)
         # the channels of a network input are all alive: layers of the component that holds one
         # (a depthwise conv on the input, a conv summed with the input) cannot prune theirs, exactly
-        # as in a component that holds a network output
-        if w_search_type == MPSType.PER_CHANNEL and any(n.op == 'placeholder' for n in c):
+        # as in a component that holds a network output. The same goes for the output of a layer
+        # excluded from the search (a depthwise conv on it, a conv summed with it, a layer invoked
+        # on it and on another tensor): an excluded layer keeps all its channels
+        if w_search_type == MPSType.PER_CHANNEL and any(
+                n.op == 'placeholder' or (is_layer(n, mod, tuple(mps_layer_map.keys())) and
+                                          exclude(n, mod, exclude_names, exclude_types)) for n in c):
             for key in curr_qinfo:
                 if isinstance(curr_qinfo[key], dict) and 'weight' in curr_qinfo[key]:
                     curr_qinfo[key]['weight']['search_precision'] = tuple(
